@@ -68,9 +68,9 @@ CLAIMED = {
         note="Non-transactional API, single thread. The store without backward adjacency cannot be built through the public API. Adjacency compaction entry points are not called by LpgStore."),
     "C13": dict(
         engine="store", category="model_checking", design_ref="DESIGN.md §7 C13",
-        technique="TLA+ specs RdfStore.tla (set semantics of every lookup) and MC_RdfIndex.tla (index mechanism mirrors the set, model-checked by TLC); recorded histories of the real RdfStore validated by TLC with the full projection after every call",
-        text="TLC checks that the subject/predicate/object index mechanism mirrors the set over all histories of the bounded model; every call result and the complete projection (find for all 48 bound/unbound patterns, triples_with_*, term listings, len, stats, contains, find_with_pending) of random insert/remove/clear/transactional-buffer histories on the real store, with and without the object index, over IRIs / blank nodes / plain, language-tagged and typed literals, is validated against the set semantics, each result once.",
-        note="SPARQL evaluation over the set (second sentence of C13) is not covered by this check; only the store part is claimed."),
+        technique="TLA+ specs RdfStore.tla (set semantics of every lookup) and MC_RdfIndex.tla (index mechanism mirrors the set, model-checked by TLC); recorded histories of the real RdfStore validated by TLC with the full projection after every call; SparqlSem.tla, an executable definition of the SPARQL algebra, evaluated by TLC as the oracle for generated queries and updates run through execute_sparql",
+        text="TLC checks that the subject/predicate/object index mechanism mirrors the set over all histories of the bounded model; every call result and the complete projection (find for all 48 bound/unbound patterns, triples_with_*, term listings, len, stats, contains, find_with_pending) of random insert/remove/clear/transactional-buffer histories on the real store, with and without the object index, over IRIs / blank nodes / plain, language-tagged and typed literals, is validated against the set semantics, each result once. SPARQL: histories of INSERT DATA / DELETE DATA and generated SELECT queries (1-3 triple patterns with shared variables and variable predicates, FILTER =, !=, <, >, BOUND, OPTIONAL, UNION nested to depth 2, DISTINCT, LIMIT, COUNT(*)); TLC computes the solution multiset and compares.",
+        note="SPARQL terms are IRIs, plain strings and small integers under a fixed predicate schema; ORDER BY, paths, sub-queries, GRAPH, other aggregates and CONSTRUCT / ASK are not generated. Two structural SPARQL findings are recorded (join over an unbound variable, FILTER scope in OPTIONAL)."),
     "C20": dict(
         engine="conc", category="model_checking", design_ref="DESIGN.md §7 C20",
         technique="TLA+ specs RdfConc / TxConc / BufMgr (one action per critical section) model-checked by TLC over all interleavings; real threads run under a yield-point controller (cfg grafeo_verif) with enumerated, random and TLC-counterexample schedules; recorded schedules validated against the specs by TLC",
@@ -122,7 +122,7 @@ ENGINES = [
     dict(name="query", path="spec/query", serves_properties=["C08", "C09", "C10", "C11"],
          kind_free_text="TLA+ QuerySem.tla (executable reference semantics) + Check_Query.tla / Metamorphic.tla evaluated by TLC; harness `gv q` / `gv qmeta` generates graphs x queries, renders GQL/Cypher, runs sessions and hand-built pipelines"),
     dict(name="store", path="spec/store", serves_properties=["C13", "C14"],
-         kind_free_text="TLA+ RdfStore.tla / MC_RdfIndex.tla / LpgStore.tla / MC_LpgIndex.tla (+Trace_*) checked by TLC; harness `gv rdf`, `gv lpg`"),
+         kind_free_text="TLA+ RdfStore.tla / MC_RdfIndex.tla / SparqlSem.tla / LpgStore.tla / MC_LpgIndex.tla / Adjacency.tla (+Trace_*) checked by TLC; harness `gv rdf`, `gv sparql`, `gv lpg`, `gv adj`"),
     dict(name="conc", path="spec/conc", serves_properties=["C20", "C03"],
          kind_free_text="TLA+ per-critical-section models checked by TLC; harness `gv conc` (yield-point controller, schedule enumeration) and `gv txstress`"),
     dict(name="wal", path="spec/wal", serves_properties=["C05", "C06"],
